@@ -309,6 +309,15 @@ class SharedMemoryManager:
         return memory
 
     @classmethod
+    def remove_shared_memory(cls, node_name: str, key: Optional[int] = None) -> None:
+        """Forget the shared memory registered for `(node_name, key)`, if any.
+
+        Objects that already hold a reference to the `SharedMemory` keep it;
+        afterwards a new shared memory can be created under the same key.
+        """
+        cls._MEMORIES.pop((node_name, key), None)
+
+    @classmethod
     def reset_memories(cls) -> None:
         for key in list(cls._MEMORIES.keys()):
             cls._MEMORIES.pop(key)
